@@ -437,8 +437,8 @@ def FillUnitDatabaseWithPosc(
     f_unit_to_base = MakeCustomaryToBase(0.0, 1000, 1.0, 0.0)
     f_base_to_unit = MakeBaseToCustomary(0.0, 1000, 1.0, 0.0)
     db.AddUnit("per mass", "per gram", "1/g", f_base_to_unit, f_unit_to_base, default_category=None)
-    f_unit_to_base = MakeCustomaryToBase(0.0, 1, 0.00456092, 0.0)
-    f_base_to_unit = MakeBaseToCustomary(0.0, 1, 0.00456092, 0.0)
+    f_unit_to_base = MakeCustomaryToBase(0.0, 1, 0.004546092, 0.0)
+    f_base_to_unit = MakeBaseToCustomary(0.0, 1, 0.004546092, 0.0)
     db.AddUnit(
         "per volume",
         "per UK gallon",
